@@ -147,7 +147,10 @@ def explore(ctx, S, rs, spec, universe, tag, rnd=None, maxsteps=None):
         else:
             perm.reverse()
         try:
+            before_perm = list(perm)
             sf = keys(Mark.set_from(perm))
+            if perm != before_perm or [id(x) for x in perm] != [id(x) for x in before_perm]:
+                bad("set_from-mutated-input", "set_from reordered the list it was given")
             exp_sf = tuple(sorted(keys(perm), key=lambda o: ranks[o[0]]))
             if sf != exp_sf:
                 bad("set_from", "set_from(%r) = %r, expected rank-sorted %r" % (keys(perm), sf, exp_sf))
